@@ -881,9 +881,9 @@ def small_scope(tier):
     M = poly_spec("M", ["a", "b"], {"a": [1.0, None, None, False], "b": [2.0, -50.0, 50.0, False]})
     names = ["M/a", "M/b"]
     nds_list = [1, 2] if quick else [1, 2, 3]
-    kinds = ["own", "ren", "const", "other"] if quick else TARGET_KINDS
     for nds in nds_list:
-        for combo in itertools.product(itertools.product(kinds, repeat=2), repeat=nds):
+        kinds = TARGET_KINDS if (not quick and nds < 3) else ["own", "ren", "const", "other"]
+        for ci, combo in enumerate(itertools.product(itertools.product(kinds, repeat=2), repeat=nds)):
             if nds == 3 and sum(k == "own" for c in combo for k in c) > 3:
                 continue
             acts = []
@@ -906,7 +906,7 @@ def small_scope(tier):
                         tnames.append(t["n"])
                 coef = [1.0 + di, 3.0]
                 acts.append(add_action(0, f"d{di}", XS[1 : 6 + di], coef, ov))
-            for fixpat in range(3 if not quick else 2):
+            for fixpat in ([ci % 3] if nds == 3 else range(3 if not quick else 2)):
                 post = [Q]
                 if fixpat == 1 and tnames:
                     post = [S(tnames[0], "fixed", True), S(tnames[0], "value", 1.5), Q]
@@ -1202,13 +1202,13 @@ def cases(tier, rng):
     quick = tier == "quick"
     yield from corpus_cases()
     r = rng.fork("c14-recover")
-    for i in range(60 if quick else 1200):
+    for i in range(60 if quick else 800):
         c = recover_case(r.fork(i), slow_ok=(not quick and i % 10 == 0))
         c["subseed"] = i
         yield c
     yield from small_scope(tier)
     r = rng.fork("c14-random")
-    for i in range(900 if quick else 12000):
+    for i in range(900 if quick else 8000):
         c = random_script(r.fork(i))
         c["subseed"] = i
         yield c
